@@ -80,14 +80,14 @@ theorem adopt_merged (w : World) (dir : String) (d md : DirSt) (n cnt : Nat)
 /-- `openDB` through the hint path, reduced to `loadHint` and `loadIndex` -/
 theorem openDB_hint (s : St) (dir : String) (cfg : Cfg) (d d' : DirSt) (w' : World) (n maxFid : Nat)
     (R Rf : Replay) (data' : List (Nat × FileSt))
-    (hdb : s.db = none) (hcfg : cfg.fileSize ≠ 0) (hd : s.world.get dir = some d) (hl : d.locked = false)
+    (hdb : s.db = none) (hcfg : cfg.Valid) (hd : s.world.get dir = some d) (hl : d.locked = false)
     (hadopt : adopt s.world dir = (w', n)) (hn : n > 0) (hd' : w'.get dir = some d')
     (hhint : loadHint Replay.init (d'.hint.getD ByteArray.empty) = some (R, maxFid)) (hne : d'.data ≠ [])
     (hload : loadIndex R (min maxFid n) d'.data = some (Rf, data')) :
     openDB s dir cfg
       = ({ world := w'.set dir { d' with data := data', locked := true }, db := some (mkDB cfg dir Rf data') }, .ok) := by
   unfold openDB
-  simp only [hdb, if_neg hcfg, hd, Option.isNone_some, Bool.false_eq_true, if_false, Option.getD_some, hl]
+  simp only [hdb, if_neg hcfg.not_rejected, hd, Option.isNone_some, Bool.false_eq_true, if_false, Option.getD_some, hl]
   simp only [hadopt, hd', Option.getD_some, if_pos hn, ite_self]
   have hhint' : loadHint { index := [], reclaim := 0, total := 0, pending := [] } (d'.hint.getD ByteArray.empty)
       = some (R, maxFid) := hhint
@@ -195,7 +195,7 @@ theorem hi_getLast {g : GDir} {n a : Nat} (hasc : AscIds g) (hact : (g.getLast?)
     directory `gm ++ hi g n`; `total` and `reclaim` both exceed their scan-path values by `S`, the
     bytes of the records of the last hinted file (which `loadIndexFromDataFiles` scans again). -/
 theorem open_after_merge (s0 : St) (dir : String) (cfg : Cfg) (d : DirSt) (g : GDir) (n a : Nat) (gm vis : GDir)
-    (hdb : s0.db = none) (hcfg : cfg.fileSize > 0) (hd : s0.world.get dir = some d) (hl : d.locked = false)
+    (hdb : s0.db = none) (hcfg : cfg.Valid) (hd : s0.world.get dir = some d) (hl : d.locked = false)
     (hmt : Matches d.data g) (hasc : AscIds g) (hrecs : ∀ x ∈ g, ∀ r ∈ x.2, RecOK r)
     (hact : (g.getLast?).map (·.1) = some a)
     (hmo : MergeOutW s0.world dir g n gm vis) (hF : HintFits gm) :
